@@ -110,6 +110,9 @@ def run(ctx):
         extra = {"fdt": safe_fdt(c, FLT[k % 3])}
         if k % 7 == 3:
             extra["photon3d"] = 3
+        if k % 14 == 3 or (k % 7 == 3 and any(m["kind"] in ("set", "cset") and m["b"] == "photon" and m["mask"] != 0 and m["enabled"]
+                                               for g in c["pipe"] for m in g) and k % 2):
+            extra["photon3d_coords"] = True
         jobs.append(dict(cfg=c, hier=bool(k % 2), extra=extra, debug=False))
         jobs.append(dict(cfg=c, hier=bool((k + 1) % 2), extra=extra, debug=True,
                          construction="yaml" if k % 3 == 0 else "python"))
